@@ -8,6 +8,7 @@ the breaking mutants the static check does not flag (leads for new necessary con
 (leads for false alarms).  Nothing is written under /verif; scratch copies live under /tmp and are removed.
 
   tools/mutant_leads.py linalg        (pysph/sph/wc/linalg.py, check C13)
+  tools/mutant_leads.py riemann       (pysph/sph/gas_dynamics/riemann_solver.py, check C15; the oracle compares with the unmutated module)
   tools/mutant_leads.py kernels       (pysph/base/kernels.py, check C08; the oracle compares with the unmutated module)
 """
 import ast, copy, importlib.util, os, random, shutil, subprocess, sys, tempfile
@@ -193,7 +194,57 @@ def oracle_kernels(path):
         signal.alarm(0)
 
 
+def oracle_riemann(path):
+    """True when every solver of the (mutated) module gives, through riemann_solve and for the same states, the status and the star state the unmutated module gives (random
+    states, equal sides, strong shocks and rarefactions, near-vacuum, few and many iterations)"""
+    import signal, io, contextlib
+
+    def alarm(*a):
+        raise TimeoutError()
+    signal.signal(signal.SIGALRM, alarm)
+    signal.alarm(40)
+    try:
+        ref = load(os.path.join(CLEAN, 'pysph/sph/gas_dynamics/riemann_solver.py'), 'refrs')
+        m = load(path, 'mutrs')
+        rnd = random.Random(11)
+        states = []
+        for k in range(140):
+            rl, rr = 10 ** rnd.uniform(-1.5, 1.5), 10 ** rnd.uniform(-1.5, 1.5)
+            pl, pr = 10 ** rnd.uniform(-1.5, 1.5), 10 ** rnd.uniform(-1.5, 1.5)
+            ul, ur = rnd.uniform(-2, 2), rnd.uniform(-2, 2)
+            states.append((rl, rr, pl, pr, ul, ur))
+        states += [(1.0, 1.0, 1.0, 1.0, 0.3, 0.3), (1.0, 0.125, 1.0, 0.1, 0.0, 0.0), (1.0, 1.0, 0.4, 0.4, -2.0, 2.0), (1.0, 1.0, 1000.0, 0.01, 0.0, 0.0),
+                   (1.0, 1.0, 1.0, 1.0, -10.0, 10.0), (2.0, 0.5, 3.0, 3.0, 1.0, -1.0), (1.0, 1.0, 1.0, 1.0, 0.0, 0.0)]
+        with contextlib.redirect_stdout(io.StringIO()):
+            for method in range(11):
+                for st in states:
+                    for gamma, niter, tol in ((1.4, 20, 1e-6), (5.0 / 3.0, 3, 1e-10), (1.4, 0, 1e-6)):
+                        r1, r2 = [0.0, 0.0], [0.0, 0.0]
+                        try:
+                            c1 = ref.riemann_solve(method, st[0], st[1], st[2], st[3], st[4], st[5], gamma, niter, tol, r1)
+                        except Exception:
+                            continue
+                        try:
+                            c2 = m.riemann_solve(method, st[0], st[1], st[2], st[3], st[4], st[5], gamma, niter, tol, r2)
+                        except Exception:
+                            return False
+                        if bool(c1) != bool(c2):
+                            return False
+                        if not c1:
+                            for a, b in zip(r1, r2):
+                                if not (abs(a - b) <= 1e-10 * max(1.0, abs(a))):
+                                    return False
+        return True
+    except TimeoutError:
+        return False
+    except Exception:
+        return False
+    finally:
+        signal.alarm(0)
+
+
 TARGETS = {
+    'riemann': ('pysph/sph/gas_dynamics/riemann_solver.py', None, 'C15', oracle_riemann),
     'kernels': ('pysph/base/kernels.py', None, 'C08', oracle_kernels),
     'linalg': ('pysph/sph/wc/linalg.py', ('identity', 'dot', 'mat_mult', 'mat_vec_mult', 'augmented_matrix', 'gj_solve'), 'C13', oracle_linalg),
 }
